@@ -3,6 +3,7 @@
   (About the tree repaired by `fix:` 1b0cf51; before it a response needing no padding decoded to
   the empty payload — `pad0_history` below.)
 -/
+import Msmart.Lemmas.CodecEqLan
 import Msmart.Model.PacketV3
 import Msmart.Spec.V3Spec
 import Msmart.Lemmas.V2
@@ -239,5 +240,35 @@ theorem alteration_collision (key H CT H' CT' T out : Bytes) (hH : H.length = 6)
 /-! non-vacuity: a concrete response with pad 0 (payload of 14 bytes), evaluated through the theorem -/
 example : processPacket (some (Py.zeros 32)) (Spec.V3.encodeEncrypted (Py.zeros 32) 3 7 (Py.zeros 14) []) =
     .ok (Py.zeros 14) := v3_decode_spec_response _ _ _ _ (by decide) (by decide)
+
+
+/-! ### the same statements about the code as translated from the source text (tie by translation, §3.1b) -/
+
+theorem encodeEncryptedRequestI_nat (key data padBytes : Bytes) (ctr : Nat) (hc : ctr < 65536)
+    (hsz : data.length + v3Pad data.length + 32 < 65536) :
+    encodeEncryptedRequestI (some key) (ctr : Int) data padBytes = encodeEncryptedRequest (some key) ctr data padBytes := by
+  unfold encodeEncryptedRequestI
+  simp only []
+  rw [if_neg (by omega), if_neg (by omega), Int.toNat_natCast]
+
+/-- **C05 (requests) about the translated `_encode_encrypted_request`.** -/
+theorem v3_spec_decodes_request_code (key data padBytes : Bytes) (ctr : Nat) (hc : ctr < 65536)
+    (hpl : padBytes.length = v3Pad data.length) (hsz : data.length + v3Pad data.length + 32 < 65536) :
+    ∃ p, Generated.Codec.encodeEncryptedRequest (some key) (ctr : Int) data padBytes = .ok p ∧
+      Spec.V3.decodeEncrypted key p = some ⟨6, ctr, data⟩ := by
+  rw [CodecEq.encodeEncryptedRequest_eq, encodeEncryptedRequestI_nat key data padBytes ctr hc hsz]
+  exact v3_spec_decodes_request key data padBytes ctr hc hpl hsz
+
+/-- **C05 (responses) about the translated `_process_packet` / `_decode_encrypted_response`.** -/
+theorem v3_decode_spec_response_code (key data padBytes : Bytes) (ctr : Nat)
+    (hpl : padBytes.length = Spec.V3.padOf data.length)
+    (hsz : data.length + Spec.V3.padOf data.length + 32 < 65536) :
+    Generated.Codec.processPacket (some key) (Spec.V3.encodeEncrypted key 3 ctr data padBytes) = .ok data := by
+  rw [CodecEq.processPacket_eq]; exact v3_decode_spec_response key data padBytes ctr hpl hsz
+
+/-- every rejection theorem of this file transfers the same way -/
+theorem marker_alteration_rejected_code (key : Option Bytes) (p : Bytes) (h : p.take 2 ≠ [0x83, 0x70]) :
+    Generated.Codec.processPacket key p = .error .protocol := by
+  rw [CodecEq.processPacket_eq]; exact marker_alteration_rejected key p h
 
 end Msmart.Props.C05
